@@ -27,9 +27,21 @@ Fixpoint le_bytes (x : N) (len : nat) : bytes :=
 Definition to_bytes (x : N) (len : nat) : res bytes :=
   if (x <? 256 ^ N.of_nat len)%N then Ok (rev (le_bytes x len)) else Err PyValueError.
 
+(* stream.read(n): the first n bytes and the rest, None when fewer than n bytes are left
+   (structural, so that reading never walks the whole remaining stream) *)
+Fixpoint take_bytes (n : nat) (s : bytes) : option (bytes * bytes) :=
+  match n with
+  | O => Some ([], s)
+  | S n' =>
+    match s with
+    | [] => None
+    | x :: r => match take_bytes n' r with Some (a, b) => Some (x :: a, b) | None => None end
+    end
+  end.
+
 (* _read_exact_number_of_bytes *)
 Definition read_exact (n : nat) (s : bytes) : res (bytes * bytes) :=
-  if (length s <? n)%nat then Err BinaryDictIOError else Ok (firstn n s, skipn n s).
+  match take_bytes n s with Some r => Ok r | None => Err BinaryDictIOError end.
 
 (* _read_unsigned_number *)
 Definition read_unsigned (n : nat) (s : bytes) : res (N * bytes) :=
@@ -104,7 +116,7 @@ Definition write_binary_dict (d : dict bytes) : res bytes :=
    the sweep over the shipped databases, where dset would be quadratic) *)
 Fixpoint read_records (n : nat) (s : bytes) (acc : list (label * bytes)) : res (list (label * bytes) * bytes) :=
   match n with
-  | O => Ok (rev acc, s)
+  | O => Ok (rev_append acc [], s)
   | S n' =>
     do kl <- read_unsigned DICT_KEY_BYTE_SIZE s;
     do kb <- read_exact (N.to_nat (fst kl)) (snd kl);
